@@ -168,6 +168,40 @@ def c19_reader(params):
     return out
 
 
+@guard.violation_on_hang(lambda m: [m])
+def c19_arc(code, params):
+    """G2/G3 act on the last value given for each of X Y Z E I J (valueless words ignored, wherever
+    they stand): the tracked end position is the commanded one when a centre offset is given."""
+    out = []
+    _code, words = read_words(code + " " + params)
+    last = {}
+    for (l, v, _t) in words:
+        if v is not None:
+            last[l] = v
+    if "R" in last:
+        return out
+    try:
+        if impl.GcodeParser().parse(code + " " + params).gcode != code:
+            return out
+        h = impl.make_handlers({})
+        impl.call_gcode(h, "G28")
+        impl.call_gcode(h, "G1 X50 Y60 Z7 E2")
+        before = {"X": 50.0, "Y": 60.0, "Z": 7.0, "E": 2.0}
+        res = impl.call_gcode(h, code + " " + params, code, None)
+        if res[0] == "err":
+            return ["%s %s raised %s" % (code, params, res[1])]
+        acts = bool(last.get("I") or last.get("J"))
+        pos = h.state.position
+        for (letter, axis) in (("X", pos.X_AXIS), ("Y", pos.Y_AXIS), ("Z", pos.Z_AXIS), ("E", pos.E_AXIS)):
+            want = last.get(letter, before[letter]) if acts else before[letter]
+            if abs(axis.current - want) > 1e-9:
+                out.append("after '%s %s' the tracked %s is %r, the last value given is %r"
+                           % (code, params, letter, axis.current, want))
+    except Exception as exc:  # pylint: disable=broad-except
+        out.append("exception %s: %s" % (type(exc).__name__, exc))
+    return out
+
+
 # --------------------------------------------------------------------------- C20
 
 class _Stream(object):
